@@ -415,6 +415,15 @@ def build_specs(tier, rng):
     }
     for k, v in seeds.items():
         specs.append({"name": k, "kind": "stress" if k in ("seed/box-comment", "seed/slash-star", "seed/dash-in-dc") else "garbage", "data": ("\n".join(v) + "\n").encode("utf-8"), "check_read": True})
+    # encodings: read_vhdlfile tries utf-8 first and falls back to ISO-8859-1 for the WHOLE file; the decoder works in
+    # chunks, so the undecodable byte may show up after part of the file has been read: Latin-1 bytes early, late
+    # (beyond the first 8 KiB and beyond 64 KiB) and only in the last line, in files of several sizes
+    body = TEMPLATE.split("\n")[:-1]
+    for tag, nfill, where in (("early", 0, 2), ("late-9k", 260, -2), ("late-70k", 2000, -2), ("mid-20k", 600, 300)):
+        lines = body[:3] + ["  -- filler line %04d of a long header comment" % i for i in range(nfill)] + body[3:]
+        k = where if where >= 0 else len(lines) + where
+        lines[k] = lines[k] + " -- caf\u00e9 \u00b5s \u00df"
+        specs.append({"name": "seed/latin1-%s" % tag, "kind": "stress", "data": ("\n".join(lines) + "\n").encode("iso-8859-1"), "check_read": True})
     specs.extend(garbage_files(rng, 2000 if tier == "quick" else 40000))
     return specs
 
